@@ -19,12 +19,13 @@ from bibtexparser.model import Entry, Field, String
 from bibtexparser.library import Library
 from bibtexparser.splitter import Splitter
 
-SIGMA = '{}"# x1\\'
+SIGMA = '{}"# x1\\_'
 NUMERIC = ("year", "month", "volume", "number", "pages", "edition", "chapter", "issue")
 
 
 def drv(v, key, reuse, encl_int, default, with_remove):
     e = Entry("article", "k", [Field(key, v)])
+    late = Field("late", "w")        # added after the removal step: has no recorded enclosing
     st = String("s", v)
     lib = Library([e, st])
     se = ss = me = ms = None
@@ -34,10 +35,11 @@ def drv(v, key, reuse, encl_int, default, with_remove):
         ss = st.value
         me = e.parser_metadata.get("removed_enclosing")
         ms = st.parser_metadata.get("removed_enclosing")
+    e.set_field(late)
     add = AddEnclosingMiddleware(reuse_previous_enclosing=reuse, enclose_integers=encl_int,
                                  default_enclosing=default, allow_inplace_modification=True)
     lib = add.transform(lib)
-    return (se, me, ss, ms, e.fields[0].value, st.value, len(lib.blocks))
+    return (se, me, ss, ms, e.fields[0].value, st.value, len(lib.blocks), late.value)
 
 
 def esc_balanced(v, quote_default):
@@ -139,7 +141,7 @@ def replay(v, key, reuse, encl_int, default, with_remove):
     import logging
     logging.disable(logging.CRITICAL)
     try:
-        se, me, ss, ms, fe, fs, nb = drv(v, key, reuse, encl_int, default, with_remove)
+        se, me, ss, ms, fe, fs, nb, lv = drv(v, key, reuse, encl_int, default, with_remove)
     except Exception as ex:  # noqa
         return {"input": [v, key, reuse, encl_int, default, with_remove], "observed": f"raised {type(ex).__name__}: {ex}", "expected": "no exception"}
     bad = []
@@ -156,6 +158,8 @@ def replay(v, key, reuse, encl_int, default, with_remove):
     else:
         xe = native_enclose(v, None, key, reuse, encl_int, default, True)
         xs = native_enclose(v, None, key, reuse, encl_int, default, False)
+    if lv != {"{": "{w}", '"': '"w"'}[default]:
+        bad.append(f"a field without recorded enclosing got {lv!r}, expected the default enclosing")
     if type(fe) is not type(xe) or fe != xe:
         bad.append(f"entry value after AddEnclosing {fe!r}, expected {xe!r}")
     if type(fs) is not type(xs) or fs != xs:
@@ -203,10 +207,11 @@ def task_str(L, key, reuse, encl_int, default, with_remove):
         if W.exc is not None:
             rec.require(W, True, "no-exception", rp)
             continue
-        se, me, ss, ms, fe, fs, nb = W.result
+        se, me, ss, ms, fe, fs, nb, lv = W.result
         if nb != 2:
             rec.require(W, True, "block-count", rp)
             continue
+        rec.require(W, b_not(E(lv, {"{": "{w}", '"': '"w"'}[default])), "field-without-metadata-gets-default", rp)
         if with_remove:
             for cond, es, ek in strip_expect(v):
                 if cond is False:
@@ -249,7 +254,7 @@ def task_int(key, reuse, encl_int, default):
         if W.exc is not None:
             rec.require(W, True, "int-no-exception", rp)
             continue
-        se, me, ss, ms, fe, fs, nb = W.result
+        se, me, ss, ms, fe, fs, nb, lv = W.result
         keep = key in NUMERIC and not encl_int
         if keep:
             good = isinstance(fe, (int, SInt)) and eng.I.models.eq_simple(fe, v)
@@ -307,7 +312,7 @@ def main():
                   "int values": "symbolic int 0..40", "re-parse clause: every escape-aware brace-balanced value of length": f"0..{LR}"}
     chk.assumptions = ["values contain only the alphabet characters; '1' is the only digit",
                        "re-parse clause: brace balance is escape-aware (a backslash escapes the next character), value must not end in an unescaped backslash, and for the quote default contains no bare quote at depth 0 - as in the statement",
-                       "integer rule: 'digit strings' are str.isdigit() strings over the alphabet (ASCII '1')"]
+                       "integer rule: 'digit strings' are str.isdigit() strings over the alphabet (ASCII '1'; '1_1' and the like are not digit strings)"]
     chk.expected_vacuity = ["stripped-{", 'stripped-"', "digits-left-unenclosed", "int-left-unenclosed", "balanced-value-reparsed"]
     for key, reuse, encl_int, default, with_remove in itertools.product(("year", "title"), (True, False), (True, False), ("{", '"'), (True, False)):
         for L in range(LS, -1, -1):
